@@ -13,6 +13,18 @@ FINDINGS = os.path.join(ROOT, "known_findings.json")
 REPO = os.environ.get("KV_REPO") or "/repo"     # KV_REPO: a scratch worktree with a seeded change (tools/try_seed_wt.sh); registered commands never set it
 
 
+def sint(v, bad=99999998):
+    """int(round(v)) made total: a NaN / infinite measurement (a broken implementation can produce one) becomes a sentinel far outside every
+    band, so that the specification gives a verdict instead of the harness dying with exit 2."""
+    try:
+        v = float(v)
+    except Exception:
+        return bad
+    if v != v or v in (float("inf"), float("-inf")):
+        return bad
+    return int(round(v))
+
+
 def use_repo():
     """Import kaira from /repo's current working tree (never from a cached copy)."""
     if REPO not in sys.path:
